@@ -2,6 +2,11 @@
 history of init / add-key / snapshot / delete / clean by several users; everything it emits is parsed into terms and compared
 with `written` / `uses` of the Lean model (`sym.run`), and classified by `sym.public`.  Shared by C05 (secrecy verdicts) and
 C14 (scheme conformance).  Worker-side: `run_tagged_history`; parent-side (talks to the driver): `judge`.
+
+Client-state worlds (C05): `gen_world` / `run_tagged_world` — several repositories with DIFFERENT encryption settings (and
+re-initialised locations) used from one machine, i.e. through one cache directory, with interleaved commands, one fresh client
+per command.  Each repository (incarnation) is judged against the model of ITS OWN history alone (`runView`, fed with the view
+each real client had): what a repository is sent must not depend on anything else the machine has seen.
 """
 import json
 
@@ -21,41 +26,84 @@ def gen_settings(r, encrypted):
     return R.settings_for(encrypted, cipher, hashing, {'name': 'gclmulchunker', 'min_length': mn, 'max_length': mx}), (mn, mx)
 
 
-def gen_history(r, encrypted, n_ops):
+def _gen_state(r, encrypted):
     settings, (mn, mx) = gen_settings(r, encrypted)
     blocks = [r.randbytes(r.choice([mx, 2 * mx, 3 * mx + 4, 40])) for _ in range(4)] + [bytes(2 * mx)]
     names = ['alpha-%06x' % r.getrandbits(24), 'beta-%06x.bin' % r.getrandbits(24), 'dir-%04x/gamma' % r.getrandbits(16), 'dir-%04x/δelta' % r.getrandbits(16),
              'empty-%05x' % r.getrandbits(20)]
+    return {'encrypted': encrypted, 'settings': settings, 'params': (mn, mx), 'blocks': blocks, 'names': names, 'nusers': 1, 'prev': None, 'nsnaps': 0}
+
+
+def _gen_op(r, g):
+    """one op of the weighted grammar add-key / snapshot / delete / clean for the repository described by `g`"""
+    k = r.random()
+    if g['encrypted'] and k < 0.22 and g['nusers'] < 4:
+        op = {'kind': 'add_key', 'base': r.randrange(g['nusers']), 'shared': r.random() < 0.6}
+        g['nusers'] += 1
+        return op
+    if k < 0.75 or g['nsnaps'] == 0:
+        fs = {}
+        prev = g['prev']
+        for nm in g['names']:
+            q = r.random()
+            if q < 0.3:
+                continue
+            if q < 0.5 and prev and nm in prev:
+                fs[nm] = prev[nm]
+            elif nm.startswith('empty'):
+                fs[nm] = b''
+            else:
+                fs[nm] = b''.join(r.choice(g['blocks']) for _ in range(r.choice([1, 1, 2, 3]))) + r.randbytes(r.choice([0, 0, 3, 9]))
+        g['prev'] = fs
+        op = {'kind': 'snapshot', 'user': r.randrange(g['nusers']), 'files': fs,
+              'note': ('note-%012x' % r.getrandbits(48)) if r.random() < 0.6 else None}
+        g['nsnaps'] += 1
+        return op
+    if k < 0.9:
+        return {'kind': 'delete', 'user': r.randrange(g['nusers']), 'which': r.randrange(g['nsnaps'])}
+    return {'kind': 'clean', 'user': r.randrange(g['nusers'])}
+
+
+def gen_history(r, encrypted, n_ops):
+    g = _gen_state(r, encrypted)
+    ops = [_gen_op(r, g) for _ in range(n_ops)]
+    return {'encrypted': encrypted, 'settings': g['settings'], 'ops': ops, 'params': g['params']}
+
+
+# ------------------------------------------------------------------ client-state worlds (C05)
+CACHE_MODES = ['shared', 'shared', 'shared', 'per-location', 'none']
+PATTERNS = [[False, True], [True, False], [False, True], [True, True], [False, True, True], [True, False, True], [False, True, False]]
+
+
+def gen_world(r, n_ops):
+    """Several repositories used from ONE machine.  `cache`: 'shared' = one cache directory for every repository (the CLI
+    default), 'per-location' = one directory per backend location (survives a re-initialisation of the location), 'none' =
+    clients without local state.  Repositories differ in their encryption settings (`PATTERNS`; at least one is encrypted), are
+    initialised at their first command, their commands are interleaved, each command is a fresh client; a `reinit` wipes a
+    location and initialises it again with the OPPOSITE encryption mode (the earlier incarnation's client state stays)."""
+    pattern = list(r.choice(PATTERNS))
+    cache = r.choice(CACHE_MODES)
+    gens = [_gen_state(r, e) for e in pattern]
+    if r.random() < 0.4:
+        # the same files are backed up to several repositories (secrecy of the encrypted one is judged on ITS objects)
+        for g in gens[1:]:
+            g['blocks'][:2] = gens[0]['blocks'][:2]
+    incs = [{'loc': i, 'encrypted': g['encrypted'], 'settings': g['settings'], 'params': g['params']} for i, g in enumerate(gens)]
+    cur = list(range(len(gens)))          # location -> current incarnation
     ops = []
-    nusers = 1
-    prev = None
-    nsnaps = 0
     for _ in range(n_ops):
-        k = r.random()
-        if encrypted and k < 0.22 and nusers < 4:
-            ops.append({'kind': 'add_key', 'base': r.randrange(nusers), 'shared': r.random() < 0.6})
-            nusers += 1
-        elif k < 0.75 or nsnaps == 0:
-            fs = {}
-            for nm in names:
-                q = r.random()
-                if q < 0.3:
-                    continue
-                if q < 0.5 and prev and nm in prev:
-                    fs[nm] = prev[nm]
-                elif nm.startswith('empty'):
-                    fs[nm] = b''
-                else:
-                    fs[nm] = b''.join(r.choice(blocks) for _ in range(r.choice([1, 1, 2, 3]))) + r.randbytes(r.choice([0, 0, 3, 9]))
-            prev = fs
-            ops.append({'kind': 'snapshot', 'user': r.randrange(nusers), 'files': fs,
-                        'note': ('note-%012x' % r.getrandbits(48)) if r.random() < 0.6 else None})
-            nsnaps += 1
-        elif k < 0.9:
-            ops.append({'kind': 'delete', 'user': r.randrange(nusers), 'which': r.randrange(nsnaps)})
-        else:
-            ops.append({'kind': 'clean', 'user': r.randrange(nusers)})
-    return {'encrypted': encrypted, 'settings': settings, 'ops': ops, 'params': (mn, mx)}
+        loc = r.randrange(len(gens))
+        g = gens[loc]
+        if g['nsnaps'] >= 1 and r.random() < (0.3 if cache == 'per-location' else 0.08):
+            ng = _gen_state(r, not g['encrypted'])
+            ng['blocks'][:2] = g['blocks'][:2]
+            gens[loc] = ng
+            incs.append({'loc': loc, 'encrypted': ng['encrypted'], 'settings': ng['settings'], 'params': ng['params']})
+            cur[loc] = len(incs) - 1
+            ops.append({'kind': 'reinit', 'inc': cur[loc], 'loc': loc})
+            continue
+        ops.append(dict(_gen_op(r, g), inc=cur[loc], loc=loc))
+    return {'cache': cache, 'pattern': pattern, 'incarnations': incs, 'ops': ops, 'locations': len(pattern)}
 
 
 def _dig(term, path):
@@ -84,82 +132,105 @@ def upload_indices(w, names):
     return sorted(out)
 
 
-def run_tagged_history(hist, label='h'):
-    """→ dict(request, real_log, real_keys, real_uses, stdout_terms, stats, problems)"""
-    problems = []
-    with T.tagged() as reg, R.Scratch(label) as sc:
-        ps = T.Parser(reg)
-        pw0 = b'pw-0-secret-' + label.encode()
-        w = T.SymWorld(sc, hist['settings'], password=pw0, parser=ps)
-        ps.secret(pw0)
-        enc = hist['encrypted']
-        real_keys = []
+class TaggedRun:
+    """ONE repository (incarnation) driven with the tagged adapters: every command is executed on the real `Repository` through
+    `SymWorld` and mirrored as an op of the model; `finish` parses everything that was emitted.  `views=True` adds to every
+    mirrored command the view its client really had (`runView`); `tolerant=True` records a failing command as a problem of the
+    case and goes on (client-state worlds: a confused client may refuse a command) instead of aborting the case."""
 
-        def parse_key(k):
-            t = ps.key_term(k if isinstance(k, dict) else json.loads(k))
-            return t
+    def __init__(self, reg, ps, w, pw0, encrypted, *, views=False, tolerant=False, tag=b''):
+        self.reg, self.ps, self.w, self.enc = reg, ps, w, encrypted
+        self.views, self.tolerant, self.tag = views, tolerant, tag
+        self.problems = []
+        self.real_keys = []
+        self.model_ops = []
+        self.snaps = []
+        self.stats = {'snapshots': 0, 'notes': 0, 'keys': 1, 'shared_keys': 0, 'deletes': 0, 'cleans': 0, 'max_files': 0, 'dedup_chunks': 0,
+                      'refused_deletes': 0}
+        self.init = {'encrypted': encrypted, 'cfg': ps.generic(w.config), 'kdfcfg': None, 'shcfg': None, 'pw': None}
+        if encrypted:
+            kt = self.parse_key(w.keys[0]['key'])
+            self.real_keys.append(kt)
+            self.init.update(kdfcfg=_dig(kt, ['a']), shcfg=_dig(kt, ['b', 'b', 2, 'a']), pw=ps.secret(pw0))
 
-        model_ops = []
-        init = {'encrypted': enc, 'cfg': ps.generic(w.config), 'kdfcfg': None, 'shcfg': None, 'pw': None}
-        if enc:
-            kt = parse_key(w.keys[0]['key'])
-            real_keys.append(kt)
-            init.update(kdfcfg=_dig(kt, ['a']), shcfg=_dig(kt, ['b', 'b', 2, 'a']), pw=ps.secret(pw0))
-        snaps = []
-        stats = {'snapshots': 0, 'notes': 0, 'keys': 1, 'shared_keys': 0, 'deletes': 0, 'cleans': 0, 'max_files': 0, 'dedup_chunks': 0,
-                 'refused_deletes': 0}
-        for op in hist['ops']:
-            if op['kind'] == 'add_key':
-                pw = b'pw-%d-' % len(w.keys) + bytes(str(len(model_ops) * 7919 + 17), 'ascii')
-                ps.secret(pw)
-                w.add_key(op['base'], op['shared'], pw)
-                kt = parse_key(w.keys[-1]['key'])
-                real_keys.append(kt)
-                model_ops.append({'kind': 'add_key', 'base': op['base'], 'shared': op['shared'], 'kdfcfg': _dig(kt, ['a']),
-                                  'shcfg': _dig(kt, ['b', 'b', 2, 'a']), 'pw': ps.secret(pw)})
-                stats['keys'] += 1
-                stats['shared_keys'] += int(op['shared'])
-            elif op['kind'] == 'snapshot':
-                for data in op['files'].values():
-                    ps.secret(data)
-                if op['note'] is not None:
-                    ps.secret_str(op['note'])
-                s = w.snapshot(op['user'], op['files'], note=op['note'])
-                for c in s['chunks']:
-                    ps.secret(c)
-                snaps.append(s)
-                try:
-                    data = ps.data_struct(s['result'].data)
-                except T.Unparsed as e:
-                    problems.append(('unparsed', 'snapshot data: %r' % (e,)))
-                    continue
-                model_ops.append({'kind': 'snapshot', 'user': op['user'], 'chunks': [ps.secret(c) for c in s['chunks']], 'data': data})
-                stats['snapshots'] += 1
-                stats['notes'] += int(op['note'] is not None)
-                stats['max_files'] = max(stats['max_files'], len(op['files']))
-                stats['dedup_chunks'] += len(s['chunks']) - sum(1 for e in s['events'] if e[0] == 'put' and e[1].startswith('data/'))
-            elif op['kind'] == 'delete':
-                if not snaps:
-                    continue
-                s = snaps[op['which'] % len(snaps)]
-                res = w.delete(op['user'], [s['name']])
-                if any(e[0] == 'put' for e in res['events']):
-                    problems.append(('delete-uploads', 'delete uploaded %r' % [e[1] for e in res['events'] if e[0] == 'put']))
-                dels = [e[1] for e in res['events'] if e[0] == 'del']
-                if res['error'] is not None:
-                    stats['refused_deletes'] += 1
-                if dels:
-                    model_ops.append({'kind': 'remove_at', 'idx': upload_indices(w, dels)})
-                stats['deletes'] += 1
-            else:
-                res = w.clean(op['user'])
-                if any(e[0] == 'put' for e in res['events']):
-                    problems.append(('clean-uploads', 'clean uploaded %r' % [e[1] for e in res['events'] if e[0] == 'put']))
-                dels = [e[1] for e in res['events'] if e[0] == 'del']
-                if dels:
-                    model_ops.append({'kind': 'remove_at', 'idx': upload_indices(w, dels)})
-                stats['cleans'] += 1
-        # ---- everything uploaded, parsed
+    def parse_key(self, k):
+        return self.ps.key_term(k if isinstance(k, dict) else json.loads(k))
+
+    def _view(self, mop):
+        if self.views and self.w.last_view is not None:
+            mop['view'] = self.w.last_view
+        return mop
+
+    def apply(self, op):
+        if not self.tolerant:
+            return self._apply(op)
+        try:
+            return self._apply(op)
+        except Exception as e:  # noqa: BLE001
+            self.problems.append(('command-failed', '%s by user %s: %s: %s' % (op['kind'], op.get('user', op.get('base')), type(e).__name__, str(e)[:120])))
+            self.stats['failed_commands'] = self.stats.get('failed_commands', 0) + 1
+
+    def _apply(self, op):
+        ps, w, stats, problems, model_ops = self.ps, self.w, self.stats, self.problems, self.model_ops
+        if max(op.get('user', 0), op.get('base', 0)) >= len(w.keys):
+            stats['skipped_ops'] = stats.get('skipped_ops', 0) + 1       # its key was never made (an earlier add-key failed)
+            return
+        if op['kind'] == 'add_key':
+            pw = b'pw-%d-' % len(w.keys) + self.tag + bytes(str(len(model_ops) * 7919 + 17), 'ascii')
+            ps.secret(pw)
+            w.last_view = None
+            w.add_key(op['base'], op['shared'], pw)
+            kt = self.parse_key(w.keys[-1]['key'])
+            self.real_keys.append(kt)
+            model_ops.append(self._view({'kind': 'add_key', 'base': op['base'], 'shared': op['shared'], 'kdfcfg': _dig(kt, ['a']),
+                                         'shcfg': _dig(kt, ['b', 'b', 2, 'a']), 'pw': ps.secret(pw)}))
+            stats['keys'] += 1
+            stats['shared_keys'] += int(op['shared'])
+        elif op['kind'] == 'snapshot':
+            for data in op['files'].values():
+                ps.secret(data)
+            if op['note'] is not None:
+                ps.secret_str(op['note'])
+            s = w.snapshot(op['user'], op['files'], note=op['note'])
+            for c in s['chunks']:
+                ps.secret(c)
+            self.snaps.append(s)
+            try:
+                data = ps.data_struct(s['result'].data)
+            except T.Unparsed as e:
+                problems.append(('unparsed', 'snapshot data: %r' % (e,)))
+                return
+            model_ops.append(self._view({'kind': 'snapshot', 'user': op['user'], 'chunks': [ps.secret(c) for c in s['chunks']], 'data': data}))
+            stats['snapshots'] += 1
+            stats['notes'] += int(op['note'] is not None)
+            stats['max_files'] = max(stats['max_files'], len(op['files']))
+            stats['dedup_chunks'] += len(s['chunks']) - sum(1 for e in s['events'] if e[0] == 'put' and e[1].startswith('data/'))
+        elif op['kind'] == 'delete':
+            if not self.snaps:
+                return
+            s = self.snaps[op['which'] % len(self.snaps)]
+            res = w.delete(op['user'], [s['name']])
+            if any(e[0] == 'put' for e in res['events']):
+                problems.append(('delete-uploads', 'delete uploaded %r' % [e[1] for e in res['events'] if e[0] == 'put']))
+            dels = [e[1] for e in res['events'] if e[0] == 'del']
+            if res['error'] is not None:
+                stats['refused_deletes'] += 1
+            if dels:
+                model_ops.append({'kind': 'remove_at', 'idx': upload_indices(w, dels)})
+            stats['deletes'] += 1
+        else:
+            res = w.clean(op['user'])
+            if any(e[0] == 'put' for e in res['events']):
+                problems.append(('clean-uploads', 'clean uploaded %r' % [e[1] for e in res['events'] if e[0] == 'put']))
+            dels = [e[1] for e in res['events'] if e[0] == 'del']
+            if dels:
+                model_ops.append({'kind': 'remove_at', 'idx': upload_indices(w, dels)})
+            stats['cleans'] += 1
+
+    def finish(self, encrypt_calls=None):
+        """everything uploaded / emitted by this repository, parsed.  `encrypt_calls`: the encryptions performed by THIS repository's
+        clients (default: all of the registry — one repository per case)"""
+        ps, w, reg, problems, stats = self.ps, self.w, self.reg, self.problems, self.stats
         real_log = []
         for e in w.backend.events:
             if e[0] != 'put':
@@ -178,7 +249,7 @@ def run_tagged_history(hist, label='h'):
                 continue
             real_log.append([name, T.expand(lt), T.expand(ct)])
         real_uses = []
-        for k, n in reg.encrypt_calls:
+        for k, n in (reg.encrypt_calls if encrypt_calls is None else encrypt_calls):
             try:
                 real_uses.append([T.expand(ps.bytes_term(k)), T.expand(ps.bytes_term(n))])
             except T.Unparsed as ex:
@@ -202,13 +273,102 @@ def run_tagged_history(hist, label='h'):
                     stdout_terms.append([cmd, T.expand(ps.payload(o))])
                 except T.Unparsed as ex:
                     problems.append(('unparsed', 'stdout of %s: %r' % (cmd, ex)))
-        request = {'op': 'sym.run', 'init': {k: (T.expand(v) if k != 'encrypted' else v) for k, v in init.items()},
-                   'ops': [_expand_op(o) for o in model_ops]}
+        request = {'op': 'sym.run', 'init': {k: (T.expand(v) if k != 'encrypted' else v) for k, v in self.init.items()},
+                   'ops': [_expand_op(o) for o in self.model_ops]}
         stats['puts'] = len(real_log)
         stats['encryptions'] = len(real_uses)
         stats['fresh_values'] = reg.count
-        return {'request': request, 'real_log': real_log, 'real_keys': [T.expand(k) for k in real_keys], 'real_uses': real_uses,
-                'stdout_terms': stdout_terms, 'stats': stats, 'problems': problems, 'encrypted': enc}
+        return {'request': request, 'real_log': real_log, 'real_keys': [T.expand(k) for k in self.real_keys], 'real_uses': real_uses,
+                'stdout_terms': stdout_terms, 'stats': stats, 'problems': problems, 'encrypted': self.enc}
+
+
+def run_tagged_history(hist, label='h', views=False):
+    """→ dict(request, real_log, real_keys, real_uses, stdout_terms, stats, problems)"""
+    with T.tagged() as reg, R.Scratch(label) as sc:
+        ps = T.Parser(reg)
+        pw0 = b'pw-0-secret-' + label.encode()
+        w = T.SymWorld(sc, hist['settings'], password=pw0, parser=ps)
+        ps.secret(pw0)
+        run = TaggedRun(reg, ps, w, pw0, hist['encrypted'], views=views)
+        for op in hist['ops']:
+            run.apply(op)
+        return run.finish()
+
+
+def run_tagged_world(world, label='w'):
+    """A client-state world (`gen_world`) on the real code with the tagged adapters.  One registry, one parser, one clock and —
+    according to `world['cache']` — one cache directory for all repositories.  → dict(repos=[obs per incarnation], world=stats)"""
+    with T.tagged() as reg, R.Scratch(label) as sc:
+        ps = T.Parser(reg)
+        ticker = {'t': 0}
+        nloc = world['locations']
+        backends = [T.RecBackend() for _ in range(nloc)]
+        shared_dir = sc.dir('cache_shared')
+
+        def cache_of(loc):
+            return {'shared': shared_dir, 'per-location': sc.dir('cache_loc%d' % loc), 'none': None}[world['cache']]
+
+        runs = {}          # incarnation index -> TaggedRun
+        uses_of = {}       # incarnation index -> encrypt calls
+        order = []
+        wstats = {'cache': world['cache'], 'pattern': ''.join('E' if e else 'P' for e in world['pattern']), 'reinits': 0, 'incarnations': 0,
+                  'enc_snapshots_after_foreign_unlock': 0, 'stale_views': 0, 'views': 0, 'failed_commands': 0}
+        unlocked_modes = {}   # cache key -> set of encryption modes of the repositories whose clients were unlocked through it so far
+
+        def cache_key(loc):
+            return {'shared': 'shared', 'per-location': 'loc%d' % loc, 'none': None}[world['cache']]
+
+        def start(inc_idx):
+            inc = world['incarnations'][inc_idx]
+            loc = inc['loc']
+            be = backends[loc]
+            be.objects.clear()           # a re-initialised location starts empty; the client state of the machine stays
+            be.events = []
+            pw0 = b'pw-0-secret-%d-' % inc_idx + label.encode()
+            before = len(reg.encrypt_calls)
+            w = T.SymWorld(sc, inc['settings'], password=pw0, parser=ps, backend=be, cache_directory=cache_of(loc), src_name='src%d' % loc, ticker=ticker)
+            ps.secret(pw0)
+            runs[inc_idx] = TaggedRun(reg, ps, w, pw0, inc['encrypted'], views=True, tolerant=True, tag=b'i%d-' % inc_idx)
+            uses_of[inc_idx] = list(reg.encrypt_calls[before:])
+            order.append(inc_idx)
+            wstats['incarnations'] += 1
+
+        frozen = {}
+        for op in world['ops']:
+            i = op['inc']
+            if op['kind'] == 'reinit':
+                old = max((k for k in runs if world['incarnations'][k]['loc'] == op['loc']), default=None)
+                if old is not None and old not in frozen:
+                    frozen[old] = runs[old].finish(uses_of[old])      # the earlier incarnation: parsed before its location is wiped
+                wstats['reinits'] += 1
+                start(i)
+                continue
+            if i not in runs:
+                start(i)
+            run = runs[i]
+            inc = world['incarnations'][i]
+            before = len(reg.encrypt_calls)
+            nviews = len(run.w.views)
+            ck = cache_key(inc['loc'])
+            foreign = ck is not None and any(m != inc['encrypted'] for m in unlocked_modes.get(ck, ()))
+            run.apply(op)
+            uses_of[i] += reg.encrypt_calls[before:]
+            new_views = run.w.views[nviews:]
+            wstats['views'] += len(new_views)
+            wstats['stale_views'] += sum(1 for v in new_views if v != inc['encrypted'])
+            if new_views and ck is not None:
+                unlocked_modes.setdefault(ck, set()).add(inc['encrypted'])
+            if op['kind'] == 'snapshot' and inc['encrypted'] and foreign:
+                wstats['enc_snapshots_after_foreign_unlock'] += 1
+        repos = []
+        for i in order:
+            obs = frozen[i] if i in frozen else runs[i].finish(uses_of[i])
+            obs['inc'] = i
+            obs['loc'] = world['incarnations'][i]['loc']
+            obs['views'] = list(runs[i].w.views)
+            repos.append(obs)
+            wstats['failed_commands'] += obs['stats'].get('failed_commands', 0)
+        return {'repos': repos, 'world': wstats}
 
 
 def _expand_op(o):
